@@ -538,3 +538,131 @@ Lemma exc_readings :
 Proof.
   vm_compute. repeat match goal with |- _ /\ _ => split end; try reflexivity; discriminate.
 Qed.
+
+(** * A table followed by a FIXED footer (zones that abolished daylight time: "JST-9", "<+03>-3"):
+    the continuity condition is that the footer's offset is the offset after the last transition;
+    the composite zone then has the offset function of its table *)
+Lemma zone_off_fixed first tr o t : increasing tr = true ->
+  (forall tl pv ol, last_window tr first = Some (tl, pv, ol) -> ol = o) ->
+  zone_off (mk_szone first tr (Some (inl o))) t =
+  Some (match last_window tr first with Some _ => table_off tr first t | None => o end).
+Proof.
+  intros Hinc Hc. unfold zone_off. cbn [z_trans z_rule z_first rule_off].
+  destruct (last_window tr first) as [[[tl pv] ol]|] eqn:Hlw.
+  - rewrite (last_window_last_trans _ _ _ _ _ Hlw). specialize (Hc tl pv ol eq_refl). subst o.
+    pose proof (proj2 (last_window_after _ _ _ _ _ Hinc Hlw)) as Ha.
+    destruct (tl <? t) eqn:E1; [rewrite (Ha t ltac:(lia)); reflexivity|].
+    destruct (t =? tl) eqn:E2; [|reflexivity].
+    rewrite (Ha t ltac:(lia)), Z.eqb_refl. reflexivity.
+  - apply last_window_none in Hlw. subst tr. reflexivity.
+Qed.
+
+Theorem composite_fixed_classification z ps first f y l :
+  let cz := mk_szone (ut_offset first) (offs ps) (Some (inl (ut_offset f))) in
+  table_zone z ps first -> extra_rule z = Some (Fixed f) ->
+  increasing (offs ps) = true -> spacing_table (offs ps) (ut_offset first) = true ->
+  (forall tl pv ol, last_window (offs ps) (ut_offset first) = Some (tl, pv, ol) -> ol = ut_offset f) ->
+  excepted_wall cz l = false ->
+  exists m, find_local_time_type_from_local z y l = Val (Ok m) /\ classified cz l m.
+Proof.
+  intros cz Hz Hr Hinc Hsp Hc Hex. unfold spacing_table in Hsp.
+  unfold excepted_wall, cz in Hex. cbn [z_trans z_first z_rule excepted_rule] in Hex. rewrite orb_false_r in Hex.
+  rewrite (from_local_scan z ps first y l Hz), Hr. cbn [rule_find_local_time_type_from_local].
+  pose proof (table_classification ps first l Hinc Hsp Hex) as H. cbv zeta in H. unfold table_answer in H.
+  (* membership in S(l) *)
+  assert (Hiff : forall t, In t (instants_of_wall cz l) <->
+            t + (match last_window (offs ps) (ut_offset first) with
+                 | Some _ => table_off (offs ps) (ut_offset first) t | None => ut_offset f end) = l).
+  { intros t. unfold cz. rewrite instants_of_wall_spec, (zone_off_fixed _ _ _ t Hinc Hc). split.
+    - intros [E _]. injection E as E. lia.
+    - intros E. split; [f_equal; lia|].
+      unfold zone_offsets. cbn [z_trans z_rule z_first]. rewrite In_dedup.
+      destruct (last_window (offs ps) (ut_offset first)).
+      + replace (l - t) with (table_off (offs ps) (ut_offset first) t) by lia.
+        destruct (table_off_in (offs ps) (ut_offset first) t) as [E'|E']; [left; exact E'|right; apply in_or_app; left; exact E'].
+      + replace (l - t) with (ut_offset f) by lia. right. apply in_or_app. right. left. reflexivity. }
+  assert (Hfin : forall m, (forall o, contains m o <->
+                   contains (match scanL ps first l with inl m' => m' | inr last => MSingle last end) o) ->
+                 (match m with MAmbiguous a b => ut_offset a > ut_offset b | _ => True end) ->
+                 last_window (offs ps) (ut_offset first) <> None -> classified cz l m).
+  { intros m Hcont Hord Hsome. unfold classified. cbv zeta.
+    destruct (last_window (offs ps) (ut_offset first)) as [w|]; [|contradiction Hsome; reflexivity].
+    unfold maps in H.
+    destruct (match scanL ps first l with inl m' => m' | inr last => MSingle last end) as [|a|a b];
+      destruct m as [|x|x x']; cbn [contains] in Hcont.
+    - destruct (instants_of_wall cz l) as [|t rest] eqn:E; [reflexivity|].
+      exfalso. apply (H t). apply Hiff. left. reflexivity.
+    - exfalso. apply (Hcont (ut_offset x)). reflexivity.
+    - exfalso. apply (Hcont (ut_offset x)). left. reflexivity.
+    - exfalso. apply (Hcont (ut_offset a)). reflexivity.
+    - assert (H0 : ut_offset x = ut_offset a) by (apply (proj2 (Hcont (ut_offset a))); reflexivity).
+      destruct H as [Ha Hu]. intros t. rewrite Hiff, H0. split; [apply Hu|intros ->; exact Ha].
+    - exfalso. pose proof (proj1 (Hcont (ut_offset x)) (or_introl eq_refl)).
+      pose proof (proj1 (Hcont (ut_offset x')) (or_intror eq_refl)). lia.
+    - exfalso. apply (Hcont (ut_offset a)). left. reflexivity.
+    - exfalso. destruct H as (_ & _ & Hlt & _).
+      pose proof (proj2 (Hcont (ut_offset a)) (or_introl eq_refl)).
+      pose proof (proj2 (Hcont (ut_offset b)) (or_intror eq_refl)). lia.
+    - destruct H as (Ha & Hb & Hlt & Hu).
+      pose proof (proj1 (Hcont (ut_offset x)) (or_introl eq_refl)) as Hx.
+      pose proof (proj1 (Hcont (ut_offset x')) (or_intror eq_refl)) as Hx'.
+      pose proof (proj2 (Hcont (ut_offset a)) (or_introl eq_refl)) as Ha'.
+      pose proof (proj2 (Hcont (ut_offset b)) (or_intror eq_refl)) as Hb'.
+      assert (ut_offset x = ut_offset a /\ ut_offset x' = ut_offset b) as [E1 E2] by lia.
+      split; [lia|]. intros t. rewrite Hiff, E1, E2. split; [apply Hu|intros [-> | ->]; assumption]. }
+  destruct (scanL ps first l) as [m|last] eqn:Es.
+  - exists m. split; [reflexivity|].
+    assert (Hsome : last_window (offs ps) (ut_offset first) <> None).
+    { intros E. apply last_window_none in E. destruct ps; [discriminate Es|discriminate E]. }
+    apply Hfin; [intros o; tauto| |exact Hsome].
+    destruct m as [|a|a b]; try exact I. exact (scanL_order _ _ _ _ _ Es).
+  - exists (MSingle f). split; [reflexivity|].
+    destruct (last_window (offs ps) (ut_offset first)) as [[[tl pv] ol]|] eqn:Hlw.
+    + destruct (scanL_inr _ _ _ _ _ _ _ Es Hlw) as [_ Hl]. specialize (Hc tl pv ol eq_refl).
+      apply Hfin; [|exact I|discriminate]. intros o. cbn [contains]. rewrite Hl, Hc. tauto.
+    + unfold classified. cbv zeta. intros t. rewrite Hiff. lia.
+Qed.
+
+(** * The continuity condition cannot be dropped: a one-transition table whose (no-change) last
+    transition sits on the rule's own October transition while the table says standard time was
+    already in force before it.  The rule code still sees the fold: Ambiguous, but the wall reading
+    occurs once. *)
+Definition dis_zone : timezone := mk_tz [mk_tr 1698541200 0] [ex_cet; ex_cest] [] (Some (Alternate exc_rule)).
+Definition dis_ps : list (Z * ltt) := [(1698541200, ex_cet)].
+Definition dis_cz : szone := mk_szone (ut_offset ex_cet) (offs dis_ps) (Some (inr (conv_rule exc_rule))).
+Lemma discontinuous_refuted :
+  table_zone dis_zone dis_ps ex_cet /\ extra_rule dis_zone = Some (Alternate exc_rule) /\
+  increasing (offs dis_ps) = true /\ spacing_table (offs dis_ps) (ut_offset ex_cet) = true /\
+  rule_year_hyps (conv_rule exc_rule) (footer_year dis_cz) /\ rule_reading_hyps exc_rule 1698546600 /\
+  footer_hi dis_cz < 1698546600 /\ excepted_wall dis_cz 1698546600 = false /\
+  footer_continues dis_cz = false /\
+  find_local_time_type_from_local dis_zone 2023 1698546600 = Val (Ok (MAmbiguous ex_cest ex_cet)) /\
+  instants_of_wall dis_cz 1698546600 = [1698543000].
+Proof.
+  split.
+  - constructor; [reflexivity|repeat constructor| |unfold o_ok; cbn; lia].
+    repeat constructor; cbn; unfold t_ok, o_ok; cbn; lia.
+  - vm_compute. repeat match goal with |- _ /\ _ => split end; try reflexivity; discriminate.
+Qed.
+
+(* the fixed-footer hypotheses are inhabited: the same two transitions followed by the footer CET-1 *)
+Definition fix_zone : timezone :=
+  mk_tz [mk_tr 1679792400 1; mk_tr 1698541200 0] [ex_cet; ex_cest] [] (Some (Fixed ex_cet)).
+Definition fix_cz : szone := mk_szone (ut_offset ex_cet) (offs ex_ps) (Some (inl (ut_offset ex_cet))).
+Lemma fix_facts :
+  table_zone fix_zone ex_ps ex_cet /\ extra_rule fix_zone = Some (Fixed ex_cet) /\
+  (forall tl pv ol, last_window (offs ex_ps) (ut_offset ex_cet) = Some (tl, pv, ol) -> ol = ut_offset ex_cet) /\
+  excepted_wall fix_cz 1719792000 = false /\
+  find_local_time_type_from_local fix_zone 2024 1719792000 = Val (Ok (MSingle ex_cet)) /\
+  instants_of_wall fix_cz 1719792000 = [1719788400] /\
+  excepted_wall fix_cz 1698546600 = false /\
+  find_local_time_type_from_local fix_zone 2023 1698546600 = Val (Ok (MAmbiguous ex_cest ex_cet)) /\
+  instants_of_wall fix_cz 1698546600 = [1698539400; 1698543000].
+Proof.
+  split.
+  - constructor; [reflexivity|repeat constructor| |unfold o_ok; cbn; lia].
+    repeat constructor; cbn; unfold t_ok, o_ok; cbn; lia.
+  - split; [reflexivity|]. split.
+    + intros tl pv ol H. vm_compute in H. injection H as _ _ <-. reflexivity.
+    + vm_compute. repeat match goal with |- _ /\ _ => split end; reflexivity.
+Qed.
